@@ -72,8 +72,15 @@ void verif_enc_assert_concrete(int c, const char* msg);
         VERIF_ASSUME(0);                                                                                                                             \
     } while (0)
 
+#ifdef VERIF_TRACE2
+#include <stdio.h>
+#define VERIF_T2(x) fprintf(stderr, "%s t=%d budget=%u\n", x, verif_cur, verif_budget)
+#else
+#define VERIF_T2(x)
+#endif
 static inline int verif_preempt(void)
 {
+    VERIF_T2("preempt");
     if (verif_budget == 0)
     {
         verif_last[verif_cur] = 0;
@@ -95,6 +102,7 @@ static inline void verif_spin_begin(int timed)
 }
 static inline int verif_block_check(u32* flag)
 {
+    VERIF_T2(*flag ? "block(open)" : "block(closed)");
     if (!*flag)
     {
         verif_blocked_on[verif_cur] = flag;
